@@ -185,8 +185,18 @@ pub broadcast axiom fn axiom_block_height(b: &naga::Block, i: int, k: int)
 
 // naga::Statement::is_terminator (naga/src/back/mod.rs, transcribed): Break | Continue | Return | Kill.  Specified so that a
 // walker that stops at a terminator fails its "every statement of the block was visited" invariant instead of being unsupported.
+//@conform
+pub open spec fn stmt_is_terminator(s: naga::Statement) -> bool {
+    match s {
+        naga::Statement::Break => true,
+        naga::Statement::Continue => true,
+        naga::Statement::Return { .. } => true,
+        naga::Statement::Kill => true,
+        _ => false,
+    }
+}
 pub assume_specification[ naga::Statement::is_terminator ](s: &naga::Statement) -> (r: bool)
-    ensures r == (s is Break || s is Continue || s is Return || s is Kill);
+    ensures r == stmt_is_terminator(*s);
 
 // String's Ord is a lawful total order (needed by vstd's BTreeMap<String, _> specs)
 pub broadcast axiom fn axiom_string_obeys_cmp()
@@ -247,6 +257,7 @@ pub assume_specification[ <naga::StructMember as Clone>::clone ](m: &naga::Struc
     ensures r == *m;
 
 // ---------------- naga::Literal::zero (transcribed from naga 24 proc/mod.rs Literal::new(0, scalar)) ----------------
+//@conform
 pub open spec fn lit_zero(s: naga::Scalar) -> Option<naga::Literal> {
     match (s.kind, s.width) {
         (naga::ScalarKind::Float, 8) => Some(naga::Literal::F64(0.0f64)),
@@ -297,6 +308,7 @@ pub assume_specification[ naga::proc::TypeLayout::to_stride ](l: &naga::proc::Ty
     ensures r == layout_stride(*l);
 
 // TypeInner::scalar (transcribed from naga 24 proc/mod.rs): the component scalar of scalars, vectors AND matrices
+//@conform
 pub open spec fn inner_scalar(t: naga::TypeInner) -> Option<naga::Scalar> {
     match t {
         naga::TypeInner::Scalar(scalar) => Some(scalar),
